@@ -319,7 +319,7 @@ TraceStep ==
              /\ (bad # {} => PrintT(<<"JUDGE", l, Field(e, "run", 0), ToJson(bad)>>))
           /\ UNCHANGED ndiv
      ELSE LET coneB == IF e.a = "stabilise"
-                       THEN ConeOf(st, ObservedNodes(st, LiveObs(st) \cup LinkedObs(st)), {}) ELSE {}
+                       THEN ConeOf(st, ObservedNodes(st, LiveObs(st)), {}) ELSE {}
               pre == Apply(st, e)
               post == IF e.a = "stabilise" THEN StabiliseFinish(pre) ELSE pre
               obs == e.obs
